@@ -183,6 +183,13 @@ impl Lattice {
     }
 }
 
+#[cfg(feature = "verif-hooks")]
+impl Lattice {
+    pub(crate) fn verif_parts(&self) -> (&[Vec<Node>], Option<&Node>, usize) {
+        (&self.ends, self.eos.as_ref(), self.len_char)
+    }
+}
+
 impl std::fmt::Debug for Lattice {
     fn fmt(&self, f: &mut std::fmt::Formatter<'_>) -> std::fmt::Result {
         writeln!(f, "Lattice {{ eos: {:?}, ends: [", &self.eos)?;
